@@ -1,13 +1,20 @@
 (* Dispatch/DC09.v — entry points of the C09 model for the correspondence check. *)
 From Coq Require Import String.
 From V Require Import Base.Prelude Base.Ints Base.Disp Model.Helper Model.Script Model.Base58
-  Model.Bech32 Model.Address.
+  Model.Bech32 Model.Address Model.AddressExt.
 Open Scope string_scope.
 Open Scope Z_scope.
 
 Definition vcmd (c : cmd) : val := match c with Op o => VI o | Push b => VB b end.
 Definition vcmds (cs : list cmd) : val := VL (map vcmd cs).
 Definition zb (z : Z) : bool := negb (z =? 0).
+Fixpoint vals_cmds (l : list val) : option (list cmd) :=
+  match l with
+  | [] => Some []
+  | VI o :: r => match vals_cmds r with Some t => Some (Op o :: t) | None => None end
+  | VB b :: r => match vals_cmds r with Some t => Some (Push b :: t) | None => None end
+  | _ => None
+  end.
 
 Definition dispatch (H : oracle) (fn : list Z) (args : list val) : val :=
   if fn_is "encode_base58" fn then
@@ -71,4 +78,38 @@ Definition dispatch (H : oracle) (fn : list Z) (args : list val) : val :=
     match args with
     | [VB s] => vres (fun '(sec, m, c) => VL [VI sec; vbool m; vbool c]) (wif_parse (o_hash256 H) s)
     | _ => bad_args end
+  else if fn_is "redeem_address" fn then
+    match args with
+    | [VL l; VI net] =>
+        match vals_cmds l with
+        | Some cs => vres_b (redeem_script_address (o_hash256 H) (o_hash160 H) cs net)
+        | None => bad_args end
+    | _ => bad_args end
+  else if fn_is "segwit_p2sh_address" fn then
+    match args with
+    | [VL l; VI net] =>
+        match vals_cmds l with
+        | Some cs => vres_b (segwit_p2sh_address (o_hash256 H) (o_hash160 H) cs net)
+        | None => bad_args end
+    | _ => bad_args end
+  else if fn_is "witness_address" fn then
+    match args with
+    | [VL l; VI net] =>
+        match vals_cmds l with
+        | Some cs => vres_b (witness_script_address (o_sha256 H) cs net)
+        | None => bad_args end
+    | _ => bad_args end
+  else if fn_is "witness_p2sh_address" fn then
+    match args with
+    | [VL l; VI net] =>
+        match vals_cmds l with
+        | Some cs => vres_b (witness_script_p2sh_address (o_hash256 H) (o_hash160 H) (o_sha256 H) cs net)
+        | None => bad_args end
+    | _ => bad_args end
+  else if fn_is "spk_bytes_address" fn then
+    match args with
+    | [VB s; VI net] => vres_b (spk_bytes_address (o_hash256 H) s net) | _ => bad_args end
+  else if fn_is "address_to_spk_bytes" fn then
+    match args with
+    | [VB a] => vres_b (address_to_spk_bytes (o_hash256 H) a) | _ => bad_args end
   else bad_args.
